@@ -29,7 +29,14 @@ MANIFEST = {
             'equal an earlier stripped line (cutDef_correct_partial; the unrestricted statement is refuted by a '
             'witness that is replayed on the real code); normalisation is idempotent; graph validation accepted '
             'implies start task exists, every transition target / requirement exists, every join has enough inbound '
-            'tasks. Totality, hang-freedom and re-read stability are decided by the monitor on the real code.',
+            'tasks and (reverse) requires has no cycle, also through task-defaults requires (accept_iff_wellformed with '
+            'the validator rule of repo fix fd108744 = Mistral.Reverse.requiresAcyclic, complete and sound: '
+            'requiresAcyclic_iff); accepted reverse definitions are runnable: accepted_reverse_never_blocked (for any '
+            'existing target, whatever tasks have succeeded so far some not-yet-succeeded needed task has all its '
+            'requirements succeeded) and accepted_reverse_run_finishes (every run of the model Mistral.Reverse '
+            'without operator commands ends ERROR with a failed task or SUCCESS with the target succeeded); the graph '
+            'stream carries cyclic-requires case classes (mutual, longer cycle, through task-defaults, '
+            'self-requirement) and a monitor that no accepted reverse definition has a requires cycle. Totality, hang-freedom and re-read stability are decided by the monitor on the real code.',
     'note': 'totality/hangs are monitor-only (time limit, sampled inputs); PyYAML, jsonschema, re, yaql, jinja2, '
             'sqlite are exercised but not modelled; check_schema memoised by schema content (validated by stream seam)',
 }
